@@ -49,13 +49,16 @@ Inductive env := EnvOk | EnvError | EnvConflictAbort.
 Inductive req :=
 | RqCreate (k : key) (v : bytes)
 | RqUpdate (k : key) (v : bytes) (prev : N)
-| RqDelete (k : key) (exp : N).
+| RqDelete (k : key) (exp : N)
+| RqRewrite (k : key) (prev : N).
+    (* one iteration of the asynchronous repair (retry/retry.go:169-263) for a queued write of
+       revision prev on key k; invoked by the environment (the retry goroutine) *)
 
 Definition req_key (q : req) : key :=
-  match q with RqCreate k _ => k | RqUpdate k _ _ => k | RqDelete k _ => k end.
+  match q with RqCreate k _ => k | RqUpdate k _ _ => k | RqDelete k _ => k | RqRewrite k _ => k end.
 
 (* which public entry point is running, as far as notify's caller and the response builder care *)
-Inductive wkind := WCreate | WUpdate0 | WUpdate | WDelete.
+Inductive wkind := WCreate | WUpdate0 | WUpdate | WDelete | WRewrite.
 
 (* error classes of the internal helpers *)
 Inductive res := ROk | RCas | RNotFound | ROther.
@@ -64,6 +67,7 @@ Inductive resp :=
 | RespCreate (hdr : N) (succ : bool)
 | RespUpdate (hdr : N) (succ : bool) (kv : option (bytes * N))
 | RespDelete (hdr : N) (succ : bool) (kv : option (bytes * N))
+| RespRewrite (rev : N)      (* revision the repair wrote the key at; 0 = nothing written *)
 | RespError.
 
 (* program counters: each constructor names the atomic action the thread performs next *)
@@ -81,11 +85,14 @@ Inductive pc :=
 | PDeleteMustDeal (k : key) (exp : N) (e : res)                        (* txn.go:151 *)
 | PDeleteDeal (k : key) (exp : N) (oval : bytes) (orev : N)            (* txn.go:155 *)
 | PDeleteCommit (k : key) (exp : N) (rev : N) (oval : bytes) (orev : N)(* txn.go:184-187 *)
+| PRwGet (k : key) (prev : N)                                          (* retry.go:216 getter *)
+| PRwDeal (k : key) (prev : N) (v : bytes)                             (* retry.go:233 tso.Deal *)
+| PRwCommit (k : key) (prev : N) (v : bytes) (rev : N)                 (* retry.go:239-258 *)
 | PNotify (w : wkind) (k : key) (rev : N) (r : res) (old : bytes * N)  (* notify(…) *)
 | PFailGet (w : wkind) (k : key) (rev : N) (old : bytes * N)           (* txn.go:109 / :228 *)
 | PReturn (r : resp).
 
-Inductive akind := ACreate | AUpdate | ADelete.
+Inductive akind := ACreate | AUpdate | ADelete | ARewrite.
 
 Inductive entry :=
 | EInvoke (t : tid) (q : req)
@@ -142,6 +149,7 @@ Definition differs (ks : kstate) (q : req) : bool :=
   | RqCreate _ _ => idx_live ks
   | RqUpdate _ _ prev => if prev =? 0 then idx_live ks else negb (idx_is ks (prev, false))
   | RqDelete _ exp => if exp =? 0 then negb (idx_live ks) else negb (idx_is ks (exp, false))
+  | RqRewrite _ _ => false
   end.
 
 (* ---------- state updates ---------- *)
@@ -189,6 +197,11 @@ Definition after_notify (w : wkind) (k : key) (rev : N) (r : res) (old : bytes *
       | RCas => PFailGet w k rev old
       | ROther => PReturn RespError
       end
+  | WRewrite =>
+      match r with
+      | ROk => PReturn (RespRewrite rev)
+      | _ => PReturn (RespRewrite 0)
+      end
   end.
 
 (* backend.deal's drift test (backend.go:195) *)
@@ -201,6 +214,7 @@ Definition step_invoke (s : state) (t : tid) (q : req) : state :=
                | RqCreate k v => PCreateDeal WCreate k v
                | RqUpdate k v prev => if prev =? 0 then PCreateDeal WUpdate0 k v else PUpdateDeal k v prev
                | RqDelete k exp => PDeleteGet k exp
+               | RqRewrite k prev => PRwGet k prev
                end in
       let s1 := set_thr s t p in
       {| rs := rs s1; kv := kv s1; thr := thr s1; cur := upd (cur s1) t (Some q); seen := upd (seen s1) t false;
@@ -228,6 +242,8 @@ Definition step_deal (s : state) (t : tid) : state :=
       else if (0 <? exp) && negb (exp =? orev) then set_thr s1 t (PNotify WDelete k rev RCas (oval, orev))
       else if rev <=? orev then set_thr s1 t (PNotify WDelete k rev ROther (oval, orev))
       else set_thr s1 t (PDeleteCommit k orev rev oval orev)
+  | PRwDeal k prev v =>
+      let (s1, rev) := do_deal s t in set_thr s1 t (PRwCommit k prev v rev)   (* tso.Deal directly: no drift test *)
   | _ => s
   end.
 
@@ -293,6 +309,29 @@ Definition step_engine (cidx0 : bool) (s : state) (t : tid) (e : env) : state :=
           else set_thr s t (PNotify WDelete k rev RCas (oval, orev))
       | EnvError => set_thr s t (PNotify WDelete k rev ROther (oval, orev))
       | EnvConflictAbort => set_thr s t (PNotify WDelete k rev RCas (oval, orev))
+      end
+  | PRwGet k prev =>
+      match e with
+      | EnvOk =>
+          match newest (k_vers (kv s k)) with     (* getLatestInternalVal: tombstones are visible *)
+          | None => set_thr s t (PReturn (RespRewrite 0))
+          | Some (r, v) =>
+              if (match v with [] => true | _ => false end) || negb (r =? prev)
+              then set_thr s t (PReturn (RespRewrite 0))
+              else set_thr s t (PRwDeal k prev v)
+          end
+      | EnvError => set_thr s t (PReturn (RespRewrite 0))
+      | EnvConflictAbort => s
+      end
+  | PRwCommit k prev v rev =>
+      match e with
+      | EnvOk =>
+          let flag := beqb v tombstone in
+          if idx_is (kv s k) (prev, flag)
+          then set_thr (apply_write s t k ARewrite rev (rev, flag) v) t (PNotify WRewrite k rev ROk ([], 0))
+          else set_thr s t (PNotify WRewrite k rev RCas ([], 0))
+      | EnvError => set_thr s t (PNotify WRewrite k rev ROther ([], 0))
+      | EnvConflictAbort => set_thr s t (PNotify WRewrite k rev RCas ([], 0))
       end
   | PFailGet w k rev old =>
       match e with
@@ -366,18 +405,19 @@ Definition kinit (d0 : N) (store : key -> kstate) : state :=
 
 Definition is_commit_pc (p : pc) : bool :=
   match p with
-  | PCreatePut _ _ _ _ _ | PCreateCas _ _ _ _ _ | PUpdateCommit _ _ _ _ | PDeleteCommit _ _ _ _ _ => true
+  | PCreatePut _ _ _ _ _ | PCreateCas _ _ _ _ _ | PUpdateCommit _ _ _ _ | PDeleteCommit _ _ _ _ _
+  | PRwCommit _ _ _ _ => true
   | _ => false
   end.
 
 Definition is_read_pc (p : pc) : bool :=
-  match p with PCreateGet _ _ _ _ | PDeleteGet _ _ | PFailGet _ _ _ _ => true | _ => false end.
+  match p with PCreateGet _ _ _ _ | PDeleteGet _ _ | PFailGet _ _ _ _ | PRwGet _ _ => true | _ => false end.
 
 Definition is_engine_pc (p : pc) : bool := is_commit_pc p || is_read_pc p.
 
 Definition is_deal_pc (p : pc) : bool :=
   match p with
-  | PCreateDeal _ _ _ | PUpdateDeal _ _ _ | PDeleteMustDeal _ _ _ | PDeleteDeal _ _ _ _ => true
+  | PCreateDeal _ _ _ | PUpdateDeal _ _ _ | PDeleteMustDeal _ _ _ | PDeleteDeal _ _ _ _ | PRwDeal _ _ _ => true
   | _ => false
   end.
 
@@ -400,7 +440,7 @@ Definition enabled (s : state) (l : label) : bool :=
 Definition pc_rev (p : pc) : option N :=
   match p with
   | PCreatePut _ _ _ r _ | PCreateGet _ _ _ r | PCreateCas _ _ _ r _ | PUpdateCommit _ _ _ r
-  | PDeleteCommit _ _ r _ _ | PNotify _ _ r _ _ => Some r
+  | PDeleteCommit _ _ r _ _ | PRwCommit _ _ _ r | PNotify _ _ r _ _ => Some r
   | _ => None
   end.
 
